@@ -31,6 +31,9 @@ Contract file directives (one per line, everything up to the next `//@` line is 
                                           `SchemeManager for LocalSchemeManager`)
   //@ replace <count> "<old>" => "<new>" [in <qual>]     exact-match rewrite (normalisation)
   //@ underscore-params <qual>            rename `_` parameter patterns of that fn to `_pN` (Verus rejects `_` there)
+  //@ fmt                                 text layer: rewrite every format!(LIT, args…) of this file's verified functions into a
+                                          generated helper `__vfmt_k(&(args)…)` whose external body is the same format! call and
+                                          whose ensures spells out the literal (N4)
   //@ optional                            (prefix line) the next directive may miss its anchor silently
 
 Inside payloads a comment line `//# <clause-id> [TAG TAG …] free text` names the obligation that
@@ -161,6 +164,164 @@ class FileJob:
         raise Lost('no statement end after %d' % pos)
 
 
+
+# ------------------------------------------------------------------------------------------------
+# N4: the text layer.  `format!(LIT, args…)` → `__vfmt_k(&(args)…)`, a generated external_body function
+# whose body is the identical `format!` call and whose `ensures` states the documented meaning of the
+# literal: the result is the literal's pieces interleaved with the Display text of the arguments.
+# ------------------------------------------------------------------------------------------------
+def rust_unescape(tok):
+    """value of a (non-raw) Rust string literal token"""
+    assert tok.startswith('"') and tok.endswith('"')
+    s, out, i = tok[1:-1], [], 0
+    while i < len(s):
+        c = s[i]
+        if c != '\\':
+            out.append(c); i += 1; continue
+        n = s[i + 1]
+        if n == 'n': out.append('\n'); i += 2
+        elif n == 't': out.append('\t'); i += 2
+        elif n == 'r': out.append('\r'); i += 2
+        elif n == '0': out.append('\0'); i += 2
+        elif n in '\\"\'': out.append(n); i += 2
+        elif n == 'x': out.append(chr(int(s[i + 2:i + 4], 16))); i += 4
+        elif n == 'u':
+            j = s.index('}', i)
+            out.append(chr(int(s[i + 3:j], 16))); i = j + 1
+        elif n == '\n':
+            i += 2
+            while i < len(s) and s[i] in ' \t\n\r':
+                i += 1
+        else:
+            raise Lost('unknown escape \\%s in string literal' % n)
+    return ''.join(out)
+
+
+def rust_escape(s):
+    out = []
+    for c in s:
+        if c == '\\': out.append('\\\\')
+        elif c == '"': out.append('\\"')
+        elif c == '\n': out.append('\\n')
+        elif c == '\t': out.append('\\t')
+        elif c == '\r': out.append('\\r')
+        elif c == '\0': out.append('\\0')
+        else: out.append(c)
+    return '"' + ''.join(out) + '"'
+
+
+def parse_format_literal(val):
+    """-> list of ('lit', text) / ('arg', name_or_None, spec)"""
+    parts, lit, i = [], [], 0
+    while i < len(val):
+        c = val[i]
+        if c == '{':
+            if val.startswith('{{', i):
+                lit.append('{'); i += 2; continue
+            j = val.index('}', i)
+            inner = val[i + 1:j]
+            name, spec = (inner.split(':', 1) + [''])[:2] if ':' in inner else (inner, '')
+            if lit:
+                parts.append(('lit', ''.join(lit))); lit = []
+            parts.append(('arg', name or None, spec))
+            i = j + 1
+        elif c == '}':
+            if val.startswith('}}', i):
+                lit.append('}'); i += 2; continue
+            raise Lost('stray } in format literal')
+        else:
+            lit.append(c); i += 1
+    if lit:
+        parts.append(('lit', ''.join(lit)))
+    return parts
+
+
+def fmt_rewrite(job, skip_ranges, notes):
+    """rewrite every format!( … ) in the wrapped range of job (outside skip_ranges); returns helper text"""
+    toks, pair = job.toks, job.pair
+    helpers = []
+    k = 0
+    lo, hi = job.wrap
+    for i, t in enumerate(toks):
+        if not (t.kind == 'id' and t.text == 'format' and i + 2 < len(toks) and toks[i + 1].text == '!' and toks[i + 2].text == '('):
+            continue
+        if not (lo <= t.pos < hi) or any(a <= t.pos < b for a, b in skip_ranges):
+            continue
+        po, pc = i + 2, pair[i + 2]
+        # split args at top-level commas
+        args, cur_start, j = [], po + 1, po + 1
+        while j < pc:
+            tt = toks[j]
+            if tt.kind == 'punct' and tt.text in ('(', '[', '{'):
+                j = pair[j] + 1; continue
+            if tt.kind == 'punct' and tt.text == ',':
+                args.append((cur_start, j)); cur_start = j + 1
+            j += 1
+        if cur_start < pc:
+            args.append((cur_start, pc))
+        if not args or toks[args[0][0]].kind != 'str' or args[0][1] - args[0][0] != 1 or toks[args[0][0]].text.startswith(('r', 'b')):
+            raise Lost('%s: format! at line %d does not start with a plain string literal' % (job.rel, rustlex.line_of(job.src, t.pos)))
+        lit_tok = toks[args[0][0]].text
+        parts = parse_format_literal(rust_unescape(lit_tok))
+        pos_args = [job.src[toks[a].pos:toks[b - 1].end] for (a, b) in args[1:]]
+        n_pos = sum(1 for p in parts if p[0] == 'arg' and p[1] is None)
+        if n_pos != len(pos_args) or any(p[0] == 'arg' and p[1] is not None and p[1].isdigit() for p in parts):
+            raise Lost('%s: format! at line %d: positional arguments do not match the literal' % (job.rel, rustlex.line_of(job.src, t.pos)))
+        # parameters: positional a0.. then captured names in order of first appearance
+        params = []   # (param_name, call_expr, set(kinds))
+        index = {}
+        pi = 0
+        spec_pieces = []
+        new_lit_parts = []
+        for p in parts:
+            if p[0] == 'lit':
+                spec_pieces.append(rust_escape(p[1]) + '@')
+                continue
+            name, spec = p[1], p[2]
+            if name is None:
+                pname = 'a%d' % pi
+                params.append([pname, pos_args[pi], set()]); index[pname] = len(params) - 1
+                pi += 1
+            else:
+                pname = 'self_' if name == 'self' else name
+                if pname not in index:
+                    params.append([pname, name, set()]); index[pname] = len(params) - 1
+            ent = params[index[pname]]
+            if spec == '':
+                ent[2].add('disp'); spec_pieces.append('%s.vdisp()' % pname)
+            elif spec == '02x':
+                ent[2].add('hex2'); spec_pieces.append('%s.vhex2()' % pname)
+            elif spec in ('?', '#?'):
+                ent[2].add('debug'); spec_pieces.append('vdebug(%s)' % pname)
+            else:
+                raise Lost('%s: unsupported format spec {:%s}' % (job.rel, spec))
+        k += 1
+        hname = '__vfmt_%d' % k
+        gens, sig = [], []
+        for gi, (pname, expr, kinds) in enumerate(params):
+            bounds = []
+            if 'disp' in kinds: bounds += ['VDisp', 'core::fmt::Display']
+            if 'hex2' in kinds: bounds += ['VDisp', 'core::fmt::LowerHex']
+            if 'debug' in kinds: bounds += ['core::fmt::Debug']
+            bounds = list(dict.fromkeys(bounds)) + ['?Sized']
+            gens.append('F%d: %s' % (gi, ' + '.join(bounds)))
+            sig.append('%s: &F%d' % (pname, gi))
+        body_lit = lit_tok.replace('{self:', '{self_:').replace('{self}', '{self_}')
+        pos_names = [p[0] for p in params if p[0].startswith('a') and p[0][1:].isdigit()]
+        body = 'format!(%s%s)' % (body_lit, ''.join(', ' + n for n in pos_names))
+        spec = ' + '.join(spec_pieces) if spec_pieces else 'Seq::<char>::empty()'
+        if len(spec_pieces) == 1 and spec_pieces[0].endswith('@') is False:
+            spec = 'Seq::<char>::empty() + ' + spec
+        line = rustlex.line_of(job.src, t.pos)
+        helpers.append(
+            '// generated from %s:%d\n#[verifier::external_body]\nfn %s%s(%s) -> (r: String)\n    ensures r@ == %s,\n{ %s }\n'
+            % (job.rel, line, hname, ('<' + ', '.join(gens) + '>') if gens else '', ', '.join(sig), spec, body))
+        call = '%s(%s)' % (hname, ', '.join('&(%s)' % p[1] for p in params))
+        job.add(t.pos, toks[pc].end, call, [dict(kind='normalisation', old='format!', new=hname)])
+        notes['fmt_helpers'].append(dict(file=job.rel, line=line, helper=hname, literal=lit_tok))
+    return '\n'.join(helpers)
+
+
 def origin_contract(d, ln, clause):
     return dict(kind='contract', file=os.path.basename(d['src']), line=ln, clause=clause)
 
@@ -186,7 +347,8 @@ def annotate(repo, contracts, out):
     directives = parse_contracts(contracts)
     jobs = {}
     clauses = {}
-    notes = dict(normalisations=[], external_body=[], wrapped=[], under_contract=[], lost_optional=[])
+    notes = dict(normalisations=[], external_body=[], wrapped=[], under_contract=[], lost_optional=[], fmt_helpers=[])
+    fmt_files = set()
     cur = None
     tops, appends, crate_tops = {}, {}, {}
     for d in directives:
@@ -235,6 +397,9 @@ def annotate(repo, contracts, out):
                 continue
             if head == 'top':
                 tops.setdefault(cur.rel, []).append(d)
+                continue
+            if head == 'fmt':
+                fmt_files.add(cur.rel)
                 continue
             if head == 'crate_top':
                 crate_tops.setdefault(cur.rel, []).append(d)
@@ -367,6 +532,18 @@ def annotate(repo, contracts, out):
                 continue
             raise
 
+    # text layer: rewrite format! calls in verified functions of files that asked for it
+    fmt_helper_text = {}
+    for rel in sorted(fmt_files):
+        job = jobs[rel]
+        if job.wrap is None:
+            raise Lost('%s: //@ fmt needs //@ wrap' % rel)
+        skip = []
+        for f in job.fns:
+            if f.qual in notes['external_body'] and f.body_open >= 0:
+                skip.append((job.toks[f.fn_tok].pos, job.toks[f.body_close].end))
+        fmt_helper_text[rel] = fmt_rewrite(job, skip, notes)
+
     # wrappers, tops, appends
     for rel, job in jobs.items():
         for d in crate_tops.get(rel, []):
@@ -387,6 +564,9 @@ def annotate(repo, contracts, out):
             t, o = payload_text(d, clauses)
             app_text += t
             app_orig += o
+        if fmt_helper_text.get(rel):
+            app_text += '\n// ---- generated format! helpers (text layer, N4) ----\n' + fmt_helper_text[rel]
+            app_orig += [dict(kind='fmtgen')] * (fmt_helper_text[rel].count('\n') + 3)
         app_text += '} // verus!\n'
         app_orig += [dict(kind='wrapper')]
         job.edits.append((end, end, app_text, app_orig, 10 ** 9))
